@@ -394,7 +394,18 @@ def rule_entry(ctx):
     import sgrep
     pvb = sgrep.params(fn)
     envb = sgrep.lets(fn["body"])
-    bbn = [k for k, v in envb.items() if sgrep.has(v, "BasicBlockVec::new(BasicBlock::new(__m, Index::default(), 0))", envb) or sgrep.has(v, "BasicBlockVec::new(BasicBlock::new(__m, 0, 0))", envb)]
+    bbn = []
+    for l_ in walk(fn["body"]):
+        if l_["k"] != "Local" or l_.get("init") is None:
+            continue
+        p_ = l_["pat"]
+        while p_["k"] in ("PType", "PRef"):
+            p_ = p_["pat"]
+        if p_["k"] != "PIdent":
+            continue
+        env_wo = {k_: v_ for k_, v_ in envb.items() if k_ != p_["name"]}  # a later shadowing `let blocks = blocks.into()` must not hide it
+        if sgrep.match(sgrep.pattern("BasicBlockVec::new(BasicBlock::new(__m, Index::default(), 0))"), l_["init"], {}, env_wo) or sgrep.match(sgrep.pattern("BasicBlockVec::new(BasicBlock::new(__m, 0, 0))"), l_["init"], {}, env_wo):
+            bbn.append(p_["name"])
     ctx.check(R, "build_basic_blocks/entry-block", len(bbn) == 1, "the block vector starts with one block of index 0 at depth 0: %s" % bbn, site(LF, fn))
     okv = len(pvb) == 3 and len(bbn) == 1 and sgrep.has(fn["body"], "visit_statement(__b, 0, __e, __r, __v)?", None, {"__b": pvb[0], "__e": pvb[1], "__r": pvb[2], "__v": bbn[0]})
     ctx.check(R, "build_basic_blocks/lifts-the-body-at-depth-0", okv, "", site(LF, fn))
